@@ -226,6 +226,34 @@ func extractBlockMgr() {
 	}
 	l.def("cfWriteBeforeNotify", "Bool", lbool(before), "writeCFHeadersMsg writes the filter-header store before the first onBlockConnected")
 
+	// ... and raises the in-memory filter tip (under its mutex) between the store write and the
+	// first notification
+	tipFirst := false
+	if wf != nil {
+		var asg, lock, unlock, firstNtf, write token.Pos = -1, -1, -1, -1, -1
+		ast.Inspect(wf.Body, func(x ast.Node) bool {
+			if a, ok := x.(*ast.AssignStmt); ok && len(a.Lhs) == 1 && src(a.Lhs[0]) == "b.filterHeaderTip" && asg < 0 {
+				asg = a.Pos()
+			}
+			return true
+		})
+		for _, c := range calls(wf.Body) {
+			switch {
+			case c.name == "store.WriteHeaders" && write < 0:
+				write = c.pos
+			case c.name == "b.newFilterHeadersMtx.Lock" && lock < 0:
+				lock = c.pos
+			case c.name == "b.newFilterHeadersMtx.Unlock" && unlock < 0:
+				unlock = c.pos
+			case c.name == "b.onBlockConnected" && firstNtf < 0:
+				firstNtf = c.pos
+			}
+		}
+		tipFirst = write >= 0 && lock > write && asg > lock && unlock > asg && firstNtf > unlock &&
+			strings.Contains(src(wf.Body), "b.filterHeaderTipHash = ")
+	}
+	l.def("cfTipBeforeNotify", "Bool", lbool(tipFirst), "writeCFHeadersMsg raises filterHeaderTip(+Hash) under newFilterHeadersMtx after the store write and before the first onBlockConnected")
+
 	// rollBackToHeight lowers the in-memory filter tip under its mutex
 	rb := funcDecl(f, "blockManager", "rollBackToHeight")
 	lowers := false
